@@ -1426,7 +1426,12 @@ namespace bloch::compiler {
             return nullptr;
         }
 
+        int dimensions = 0;
         while (match(TokenType::LBracket)) {
+            // Every '[...]' wraps the type once more; the passes that walk the type recurse through
+            // the wrappers, so a run of brackets counts as nesting like any other construct.
+            if (m_depth + ++dimensions > kMaxNestingDepth)
+                reportError("nesting too deep");
             int arrSize = -1;
             std::unique_ptr<Expression> sizeExpr = nullptr;
             if (!check(TokenType::RBracket)) {
